@@ -366,6 +366,29 @@ def i1_initial_population(F, r):
             r.ok(f"{name}: create -> on_initial", "every built individual is added to the population")
 
 
+def i2_initial_individual_complete(F, r):
+    """an individual produced by an initial operator knows every job of the problem: on EVERY return path of `InitialOperator::create` the result is computed from
+    `InsertionContext::new(problem, ..)` (which lists all jobs as required) — never from `new_empty` or another shortcut, whatever the quota says. A context that does not
+    know the jobs reports nothing as unassigned, has the best possible fitness and is returned as the solution."""
+    impls = [m for m in F.trait_impl_methods("rosomaxa::evolution::config::InitialOperator::create") if m.startswith("<vrp_core::")]
+    if not impls:
+        raise AnchorError("no InitialOperator::create impl in vrp-core")
+
+    def is_source(fn, kind, x):
+        return kind == "call" and (x["callee"] or "").endswith("heuristics::context::InsertionContext::new")
+    for m in impls:
+        fn = F.fns[m]
+        v = mir.must_derive(F, fn, {"l": 0, "p": []}, is_source)
+        name = util.short_fn(m)
+        if v is True:
+            r.ok(f"{name}: complete individual", "every return derives from InsertionContext::new(problem, environment)")
+        elif v is None:
+            r.ok(f"{name}: complete individual", "not decided (result completed through a mutable borrow or an indirect call)")
+        else:
+            r.fail(f"{name}: complete individual", "on some path the initial individual is NOT built from InsertionContext::new (e.g. `new_empty` when the quota is exhausted): it knows no jobs, "
+                   "reports nothing as unassigned, beats every real individual and is returned as the solution with all jobs lost", F.loc(m))
+
+
 # ---- D1: decomposition is lossless under interruption --------------------------------------------------------------
 DROPPING = ("filter", "filter_map", "flatten", "flat_map", "take", "skip", "take_while", "skip_while", "step_by", "map_while", "find", "find_map", "nth", "last", "next",
             "dedup", "dedup_by_key", "truncate", "pop", "drain", "retain")
@@ -592,6 +615,7 @@ def run(ctx):
     ctx.run("C07-Q1", "quota poll inventory; quota wrappers and derived environments keep the user's quota", q1_poll_inventory, floor=5)
     ctx.run("C07-T1", "termination estimates stay within [0,1] by construction", t1_estimates_clamped, floor=5)
     ctx.run("C07-I1", "initial construction is not cut short by the quota; every built individual joins the population", i1_initial_population, floor=2)
+    ctx.run("C07-I2", "initial operators always build a complete individual (InsertionContext::new on every return path)", i2_initial_individual_complete, floor=1)
     ctx.run("C07-D1", "decomposition merges every part back (no element-dropping adapter between parts and merge)", d1_decompose_lossless, floor=2)
     ctx.run("C07-G1", "configured generation/time limits always become members of the termination criterion", g1_limits_wired, floor=6)
     ctx.run("C07-R1", "Solver::solve maps an empty result to Err and converts through Solution::from", r1_solve_result, floor=2)
